@@ -715,6 +715,7 @@ var tokenNames = [...]string{
 	AND_AND:                 "&&",
 	AND_BANG:                "&!",
 	AND_AND_EQUAL:           "&&=",
+	AND_EQUAL:               "&=",
 	OR_OR:                   "||",
 	OR_BANG:                 "|!",
 	OR_OR_EQUAL:             "||=",
